@@ -38,7 +38,7 @@ SignalOne    == IF Parked = {} THEN {cst} ELSE {[cst EXCEPT ![c] = "woken"] : c 
 
 (* the possible effects of call a on the consumers (evaluated before the call) *)
 Notifies(a) ==
-  CASE a.op = "add" /\ Accepts(a)              ->
+  CASE IsAdd(a) /\ Accepts(Norm(a))            ->
          IF kind = "syncq"
          THEN (IF Deviation = "signal_if_first" /\ ~Empty THEN {cst} ELSE SignalOne)
          ELSE BroadcastAll
@@ -92,7 +92,7 @@ ExtActs == {a \in ActsOf(kind) : a.op # "pop"}
 PopAnys == IF kind = "syncq" THEN {TRUE} ELSE BOOLEAN
 
 ExtNext == \/ \E a \in ExtActs : \E r \in Replies(a) :
-                /\ (a.op = "add" => seq < MaxItems)
+                /\ (IsAdd(a) => seq < MaxItems)
                 /\ External(a, r)
            \/ \E c \in Cons, any \in PopAnys : PopCall(c, any)
 IntNext == \E c \in Cons : Wake(c)
